@@ -88,3 +88,35 @@ Proof.
 Qed.
 
 End Tree.
+
+(* whether j lies in the subtree of a is decidable (walk up from j) *)
+Section BelowDec.
+Variable T : tables.
+
+Lemma dpath_last w a j q : dpath T w a j q -> j = a \/ exists p, child_of w p j /\ reach T w a p.
+Proof.
+  induction 1 as [|p c q Hp IH Hc]; [left; reflexivity|]. right. exists p. split; [exact Hc|exists q; exact Hp].
+Qed.
+
+Lemma below_dec w a : TreeFacts w -> forall j, reach T w a j \/ ~ reach T w a j.
+Proof.
+  intros HF j. destruct (N.eq_dec j a) as [->|Hne]; [left; apply reach_refl|].
+  destruct (w_nodes w j) as [nj|] eqn:Ej.
+  2:{ right. intros (q & Hd). destruct (dpath_last _ _ _ _ Hd) as [E|(p & Hc & _)]; [contradiction|].
+      destruct (tf_up _ HF _ _ Hc) as (cn & Hcn & _). congruence. }
+  destruct (tf_depth _ HF _ _ Ej) as (h & Hd). revert nj Ej Hne.
+  induction Hd as [j nj0 Hj Htop|j nj0 p h Hj Hp Hd IH]; intros nj Ej Hne.
+  - right. intros (q & Hq). destruct (dpath_last _ _ _ _ Hq) as [E|(p & Hc & _)]; [contradiction|].
+    destruct (tf_up _ HF _ _ Hc) as (cn & Hcn & Hpar). rewrite Hj in Hcn. injection Hcn as <-. eapply Htop; eauto.
+  - assert (Hcj : child_of w p j) by exact (tf_down _ HF _ _ _ Hj Hp).
+    assert (Hdec : reach T w a p \/ ~ reach T w a p).
+    { destruct (N.eq_dec p a) as [->|Hpa]; [left; apply reach_refl|].
+      destruct (child_alloc _ _ _ Hcj) as (np & Hnp). eapply IH; eauto. }
+    destruct Hdec as [Hb|Hnb].
+    + left. eapply reach_step; eauto.
+    + right. intros (q & Hq). destruct (dpath_last _ _ _ _ Hq) as [E|(p2 & Hc2 & Hb2)]; [contradiction|].
+      destruct (tf_up _ HF _ _ Hc2) as (cn & Hcn & Hpar). rewrite Hj in Hcn. injection Hcn as <-.
+      rewrite Hp in Hpar. injection Hpar as <-. contradiction.
+Qed.
+
+End BelowDec.
